@@ -14,7 +14,8 @@ import traceback
 from .tlc import MachineryError, TlcResult
 
 VERIF = os.path.dirname(os.path.dirname(os.path.abspath(__file__)))
-EVIDENCE = os.path.join(VERIF, 'evidence')
+# runs against a modified copy of the repository (tools/seedtest.py) must not overwrite the evidence of the real tree
+EVIDENCE = os.environ.get('VERIF_EVIDENCE_DIR') or os.path.join(VERIF, 'evidence')
 REPLAY = os.path.join(EVIDENCE, 'replay')
 FINDINGS_FILE = os.path.join(VERIF, 'known_findings.json')
 
